@@ -221,6 +221,18 @@ def r1(ctx: Ctx, run: FuncInfo, fl, loop) -> None:
     stores = [s for s in lfl.cfg.stmts() if isinstance(s, ast.Assign) and isinstance(s.targets[0], ast.Subscript) and src(s.targets[0].value) == 'data_sources']
     ok = bool(stores) and all(any("get('_supplemental'" in t and tr for t, tr in lfl.cfg.guard_literals(st)) for st in stores)
     ctx.check(ok, 'C11.R1', lsf, 'wire:supplemental-only', 'only supplemental sources are loaded as query data', 'load_supplemental_sources does not filter on _supplemental')
+    # supplemental rows are compared with the transaction in rule expressions (`r.date == txn.date`): the transaction's date is a `date`
+    # (C05.R3), so the `date` column of a supplemental row has to be one too - a datetime never equals a date
+    dstores = [s for s in lfl.cfg.stmts() if isinstance(s, ast.Assign) and isinstance(s.targets[0], ast.Subscript)
+               and any(t == "field_name == 'date'" and tr for t, tr in lfl.cfg.guard_literals(s)) and not any(isinstance(a, ast.ExceptHandler) for a in ancestors(s))]
+    if not dstores:
+        ctx.unknown('C11.R1', lsf, "no store of the parsed `date` column found under `field_name == 'date'` in load_supplemental_sources")
+    for s in dstores:
+        ops = {o for _l, ops_ in lfl.leaf_paths(s.value, s) for o in ops_}
+        ok = 'call:strptime' in ops and any(o in ('call:date', 'callq:date.date') or (o.startswith('callq:') and o.endswith('.date')) for o in ops)
+        ctx.check(ok, 'C11.R1', lsf, 'supplemental:date-is-a-date', "a supplemental row's date is strptime(…, date_format).date()",
+                  f'{src(s)[:80]!r}: the date column of a supplemental row is not reduced to a date: `r.date == txn.date` is never true for a datetime, '
+                  f'so every rule that joins on the date silently stops matching', s)
     # views
     cb = fl.calls('classify_by_sections')
     ok = len(cb) == 1 and 'key:stats:by_merchant' in fl.atoms(cb[0].args[0], cb[0]) and 'key:config:sections' in fl.atoms(cb[0].args[1], cb[0])
